@@ -87,6 +87,13 @@ class SNum:
     def __mul__(s,o): return SNum(s.e*lift(o))
     __rmul__=__mul__
     def __neg__(s): return SNum(-s.e)
+    def __truediv__(s,o):
+        d=lift(o)
+        if ctx().branch(d==0): raise ZeroDivisionError("float division by zero")
+        return SNum(s.e/d)
+    def __rtruediv__(s,o):
+        if ctx().branch(s.e==0): raise ZeroDivisionError("float division by zero")
+        return SNum(lift(o)/s.e)
     def __lt__(s,o): return SBool(s.e<lift(o))
     def __le__(s,o): return SBool(s.e<=lift(o))
     def __gt__(s,o): return SBool(s.e>lift(o))
